@@ -16,7 +16,7 @@ PROP = dict(
          "sample of the length 3-4 enumeration + the F12 witnesses + 60 process deaths (6 scenarios x 10 writer positions) + "
          "an editor tier (learn/unlearn/key events through a real Editor over a file-backed user dictionary, the editor dropped "
          "at chosen writer positions); thorough: the full enumeration (scripts <= 4 over {add,update,remove x 2 keys, flush, reopen}, length 5 over a "
-         "reduced alphabet, each followed by every split of Drop). SQLite back end (persist_sql, feature sqlite): "
+         "reduced alphabet, each followed by every split of Drop; measured 2026-09-29: 174 126 plans, 177 204 schedules run, 53 084 distinct realised, 0 differences, 15.5 min). SQLite back end (persist_sql, feature sqlite): "
          "random call lists on a real SqliteDictionary, an independent read-only connection after every call (no flush, no close); "
          "150 (thorough 1500) child processes run call lists in lock-step and are SIGKILLed 0-400 us after a call was released, a "
          "fresh connection must read the acknowledged calls plus possibly the one in progress; the model is stepped at statement "
